@@ -37,6 +37,12 @@ func runC03(c *Ctx) {
 	ruleOpenFlags(c, "C03.15")
 	ruleCapabilityPresent(c, "C03.16")
 	ruleReplaySkipsOnlyOnPageLSN(c, "C03.17")
+	ruleLogLengthBound(c, "C03.18")
+	ruleLogOpens(c, "C03.19")
+	ruleLogNeverShrinks(c, "C03.20")
+	ruleReplayUnconditional(c, "C03.21")
+	ruleNoLoopVarCapture(c, "C03.22", "storage", "engine")
+	ruleRawReadOnBuffer(c, "C03.23", "storage.(*WALEntry).decode")
 	ruleErrorsNotDropped(c, "C03.11", "storage.(*BTree).insert", "storage.(*RelationService).Insert")
 }
 
